@@ -231,6 +231,32 @@ Fixpoint pupsert {V} (k : N * N) (v : V) (l : list ((N * N) * V)) : list ((N * N
   | (k', v') :: r => if pair_eqb k' k then (k', v) :: r else (k', v') :: pupsert k v r
   end.
 
+(* ------------------------------------------------------------------ assets *)
+(* basics.AssetParams: the fields apply/asset.go reads; [ap_extra] identifies the remaining
+   fields (decimals, names, URL, metadata hash), 0 = all zero *)
+Record aparams := mkAP {
+  ap_total : N;
+  ap_dfrozen : bool;
+  ap_manager : N;
+  ap_reserve : N;
+  ap_freeze : N;
+  ap_clawback : N;
+  ap_extra : N
+}.
+Definition ap_is_zero (p : aparams) : bool :=
+  (ap_total p =? 0) && negb (ap_dfrozen p) && (ap_manager p =? 0) && (ap_reserve p =? 0) &&
+  (ap_freeze p =? 0) && (ap_clawback p =? 0) && (ap_extra p =? 0).
+
+(* basics.AssetHolding *)
+Record holding := mkH { h_amount : N; h_frozen : bool }.
+
+(* ledgercore.AssetParamsDelta / AssetHoldingDelta: nothing recorded, a value, or deleted *)
+Inductive delta (A : Type) := DNone | DSome (a : A) | DDel.
+Arguments DNone {A}. Arguments DSome {A}. Arguments DDel {A}.
+
+(* one AssetResourceRecord of AccountDeltas: params and holding of (address, asset) *)
+Record ares := mkAres { r_params : delta aparams; r_holding : delta holding }.
+
 (* ------------------------------------------------------------------ the overlay *)
 (* one roundCowState: mods.Accts (slice order = ModifiedAccounts order), mods.Txids
    (insertion order: Intra = position), mods.Txleases, txnCount, feesCollected *)
@@ -239,24 +265,31 @@ Record layer := mkLayer {
   l_txids : list (N * N);              (* txid -> LastValid *)
   l_leases : list ((N * N) * N);       (* (sender, lease) -> expires *)
   l_txncount : N;
-  l_fees : N
+  l_fees : N;
+  l_assets : list ((N * N) * ares);    (* mods.Accts.AssetResources, key (address, asset) *)
+  l_creat : list (N * option N)        (* mods.Creatables (assets): Some creator = created, None = deleted *)
 }.
-Definition layer0 : layer := mkLayer [] [] [] 0 0.
+Definition layer0 : layer := mkLayer [] [] [] 0 0 [] [].
 
 (* field updaters: the only places (with [merge_layer]) that rebuild a layer *)
 Definition upd_accts (l : layer) (x : list (N * acct)) : layer :=
-  mkLayer x (l_txids l) (l_leases l) (l_txncount l) (l_fees l).
+  mkLayer x (l_txids l) (l_leases l) (l_txncount l) (l_fees l) (l_assets l) (l_creat l).
 Definition upd_fees (l : layer) (x : N) : layer :=
-  mkLayer (l_accts l) (l_txids l) (l_leases l) (l_txncount l) x.
+  mkLayer (l_accts l) (l_txids l) (l_leases l) (l_txncount l) x (l_assets l) (l_creat l).
 Definition upd_tx (l : layer) (txids : list (N * N)) (leases : list ((N * N) * N)) (cnt : N) : layer :=
-  mkLayer (l_accts l) txids leases cnt (l_fees l).
+  mkLayer (l_accts l) txids leases cnt (l_fees l) (l_assets l) (l_creat l).
+Definition upd_assets (l : layer) (x : list ((N * N) * ares)) : layer :=
+  mkLayer (l_accts l) (l_txids l) (l_leases l) (l_txncount l) (l_fees l) x (l_creat l).
+Definition upd_creat (l : layer) (x : list (N * option N)) : layer :=
+  mkLayer (l_accts l) (l_txids l) (l_leases l) (l_txncount l) (l_fees l) (l_assets l) x.
 
 (* roundCowBase as far as the evaluator uses it: account table of the previous round, the
    transaction ids the ledger reports as already committed, previous TxnCounter *)
 Record base := mkBase {
   b_accts : list (N * acct);
   b_txids : list N;
-  b_counter : N
+  b_counter : N;
+  b_assets : list ((N * N) * (option aparams * option holding))   (* LookupAsset *)
 }.
 
 Record cow := mkCow {
@@ -311,12 +344,26 @@ Fixpoint merge_leases (into from : list ((N * N) * N)) : list ((N * N) * N) :=
 
 (* roundCowState.commitToParent followed by dropping the child: the parent becomes the
    current cow again *)
+Fixpoint merge_assets (into from : list ((N * N) * ares)) : list ((N * N) * ares) :=
+  match from with
+  | [] => into
+  | (k, v) :: r => merge_assets (pupsert k v into) r
+  end.
+
+Fixpoint merge_creat (into from : list (N * option N)) : list (N * option N) :=
+  match from with
+  | [] => into
+  | (k, v) :: r => merge_creat (aupsert k v into) r
+  end.
+
 Definition merge_layer (p t : layer) : layer :=
   mkLayer (merge_accts (l_accts p) (l_accts t))
           (l_txids p ++ l_txids t)
           (merge_leases (l_leases p) (l_leases t))
           ((l_txncount p + l_txncount t) mod 2 ^ 64)
-          (fst (oadd 64 (l_fees p) (l_fees t))).
+          (fst (oadd 64 (l_fees p) (l_fees t)))
+          (merge_assets (l_assets p) (l_assets t))
+          (merge_creat (l_creat p) (l_creat t)).
 
 Definition commit (c : cow) : cow :=
   match c_parents c with
@@ -367,3 +414,75 @@ Definition addfee (c : cow) (fee : N) : cow :=
 (* roundCowState.Counter *)
 Definition counter (c : cow) : N :=
   fold_right (fun l acc => l_txncount l + acc) (b_counter (c_base c)) (c_top c :: c_parents c).
+
+(* ------------------------------------------------------------------ asset resources *)
+(* lookupAssetParams / lookupAssetHolding through the layers: the first layer that has a
+   record with something recorded for that half answers; the ledger answers last.  (The
+   cacheOnly variants used by the put functions can fail with ErrNotInCowCache in Go; every
+   caller in ledger/apply has looked the resource up before, so the cache is warm -- not
+   modelled.) *)
+Definition base_params (b : base) (k : N * N) : delta aparams :=
+  match pfind k (b_assets b) with Some (Some p, _) => DSome p | _ => DNone end.
+Definition base_holding (b : base) (k : N * N) : delta holding :=
+  match pfind k (b_assets b) with Some (_, Some h) => DSome h | _ => DNone end.
+
+Fixpoint layers_params (ls : list layer) (b : base) (k : N * N) : delta aparams :=
+  match ls with
+  | [] => base_params b k
+  | l :: r => match pfind k (l_assets l) with
+              | Some res => match r_params res with DNone => layers_params r b k | d => d end
+              | None => layers_params r b k
+              end
+  end.
+
+Fixpoint layers_holding (ls : list layer) (b : base) (k : N * N) : delta holding :=
+  match ls with
+  | [] => base_holding b k
+  | l :: r => match pfind k (l_assets l) with
+              | Some res => match r_holding res with DNone => layers_holding r b k | d => d end
+              | None => layers_holding r b k
+              end
+  end.
+
+Definition params_delta (c : cow) (k : N * N) : delta aparams := layers_params (c_top c :: c_parents c) (c_base c) k.
+Definition holding_delta (c : cow) (k : N * N) : delta holding := layers_holding (c_top c :: c_parents c) (c_base c) k.
+
+(* GetAssetParams / GetAssetHolding: a deleted entry is "not found" *)
+Definition get_params (c : cow) (a i : N) : option aparams :=
+  match params_delta c (a, i) with DSome p => Some p | _ => None end.
+Definition get_holding (c : cow) (a i : N) : option holding :=
+  match holding_delta c (a, i) with DSome h => Some h | _ => None end.
+
+(* putAssetHolding / putAssetParams: the record written to the current cow carries the other
+   half as found through the chain *)
+Definition put_holding_delta (c : cow) (a i : N) (d : delta holding) : cow :=
+  set_top c (upd_assets (c_top c) (pupsert (a, i) (mkAres (params_delta c (a, i)) d) (l_assets (c_top c)))).
+Definition put_params_delta (c : cow) (a i : N) (d : delta aparams) : cow :=
+  set_top c (upd_assets (c_top c) (pupsert (a, i) (mkAres d (holding_delta c (a, i))) (l_assets (c_top c)))).
+
+(* AllocateAsset / DeallocateAsset (global) *)
+Definition set_creatable (c : cow) (i : N) (v : option N) : cow :=
+  set_top c (upd_creat (c_top c) (aupsert i v (l_creat (c_top c)))).
+
+(* GetCreatorForRound of the harness ledger: the account that holds the params *)
+Fixpoint base_creator_scan (l : list ((N * N) * (option aparams * option holding))) (i : N) : option N :=
+  match l with
+  | [] => None
+  | ((a, j), (Some _, _)) :: r => if j =? i then Some a else base_creator_scan r i
+  | _ :: r => base_creator_scan r i
+  end.
+
+Fixpoint layers_creator (ls : list layer) (b : base) (i : N) : option N :=
+  match ls with
+  | [] => base_creator_scan (b_assets b) i
+  | l :: r => match afind i (l_creat l) with
+              | Some v => v
+              | None => layers_creator r b i
+              end
+  end.
+
+(* roundCowState.getCreator (assets) *)
+Definition get_creator (c : cow) (i : N) : option N := layers_creator (c_top c :: c_parents c) (c_base c) i.
+
+(* "addr not found in deltas": the Delete* functions insist on the account being in this cow *)
+Definition in_mods (c : cow) (a : N) : bool := match afind a (l_accts (c_top c)) with Some _ => true | None => false end.
